@@ -14,6 +14,11 @@ TRUSTED_BASE = [
     "routines with both, and the two models with each other in exact rational arithmetic (kind recexact)",
     "exact mode: dyadic data, N <= 24, order <= 6; rtol 1e-6 (Marple recursions: 1e-5); boundary kinds (N = 2p) compare the error "
     "normalised by the signal energy (the covariance minimum is exactly 0 there)",
+    "kind xmin: the Lean model in exact mode (driver commands arcovar / modcovar, Q) on full float64 records (every double is a "
+    "dyadic rational), N <= 128, order <= 14, is THE reference minimiser / minimum; the energy of the coefficients returned by the "
+    "library is evaluated in exact integer arithmetic in this file (_exact_energy); a harness failure is raised if that energy is "
+    "below the model's minimum; sigma_min/sigma_max (predicate and tolerance scale) is numpy's SVD of a matrix built in this file; "
+    "scipy.optimize.linear_sum_assignment pairs expected and estimated frequencies",
     "oracle references written in numpy inside this file: the data matrix (_dmat), numpy.linalg.lstsq for the backward and the "
     "lower-order modified-covariance minima, numpy.linalg.cond for the conditioning predicate (no library routine is used to "
     "select or to judge a case)",
@@ -27,12 +32,30 @@ ASSUMPTIONS = ["N - p >= p for all four functions (the boundary N = 2p included 
                "(kind sanity fails the run when fewer than 60% of the generated candidates satisfy it); inside that domain a "
                "ValueError of modcovar_marple is a violation; backward outputs of arcovar_marple: the same predicate on the "
                "backward regressor matrix; at N = 2p the zero minimum is compared with max(1e-9, 1e-13 cond) x energy; "
-               "exact recovery: frequencies on a grid of spacing 1/40, the same conditioning predicate on the noiseless data matrix"]
+               "exact recovery: frequencies on a grid of spacing 1/40, the same conditioning predicate on the noiseless data matrix",
+               "kind xmin: full column rank to working precision (sigma_min/sigma_max >= 1e-13, numpy SVD; records below are counted under "
+               "tag xmin:*:rank-deficient(excluded), kind overfit covers that regime); tolerances scale with eps/rho (coefficients, "
+               "frequencies of clustered tones) and with the rounding floor eps^2 |x|^2 (1+|a*|_1)^2 (energy), constants = 30x..80x the worst "
+               "observed on the unchanged tree (table in the module); the Marple routines are compared only where "
+               "sigma_min/sigma_max >= 1e-4 (cond(XcH Xc) <= 1e8: tags xmin:*:marple-checked / marple-excluded(cond>1e8)), there a "
+               "ValueError is a violation; the returned error / variance is compared with the exact minimum relative to eps |x|^2 |a|_1 "
+               "(it is computed as e0 + Cz.a: cancellation makes it unreliable relative to a minimum below eps |x|^2, on the unchanged "
+               "tree too, so it is not compared relative to the minimum)"]
 RULE = ("real/complex data of length 6..128 (noise, exponentials in noise, noiseless exponentials, integer data, wide dynamic range, "
         "complex dtype with zero imaginary part; handed over as float64/complex128 arrays, int64/int32 arrays, lists of floats, "
         "complex numbers or Python ints) x orders 1..min(N/2, 20), N = 2p included for all four functions; order 0 of the Marple "
         "routines (trivial); exact-mode model cases N <= 24, order <= 6; exact recovery: p = 1..8 complex exponentials with "
-        "N = 2p, 2p+1, ..40, K real sinusoids at order 2K, tones exactly at 0 and 0.5; non-trivial = order >= 2")
+        "N = 2p, 2p+1, ..40, K real sinusoids at order 2K, tones exactly at 0 and 0.5; "
+        "kind xmin (exact minimum): records whose regressor matrix has full column rank and sigma_min/sigma_max anywhere in 1e-13..1 "
+        "(stratified per decade) - (a) exactly representable records = exact low-order recurrence (constant, alternating, c(+-2)^n, "
+        "Fibonacci-like, integer patterns of period 3 / 4, times i^n or (1+i) when complex) + 2^-s x small integers, s = 1..40, "
+        "order > number of exact components, N = 8..24, order <= 6; (b) noiseless sums of p = 2..5 complex exponentials with clustered "
+        "distinct frequencies (spacing 1e-3..1e-2) and 1..2 real sinusoids within 1e-3..1e-2 of DC / Nyquist, order p, N = 2p..128; "
+        "(c) 1..3 complex exponentials / 1..2 real sinusoids in white noise at SNR 0..200 dB, order > number of exponentials, "
+        "N = 8..96, order <= 14; for each: arcovar, modcovar, pcovar(...).ar/.rho, pmodcovar(...).ar/.rho and (where cond(XcH Xc) <= 1e8) "
+        "arcovar_marple / modcovar_marple against the exact minimiser and minimum of the Lean model (rationals), the energy of the "
+        "returned coefficients evaluated in exact integer arithmetic and compared relative to the MINIMUM + rounding floor, not to |x|^2; "
+        "non-trivial = order >= 2")
 
 
 def _sp():
@@ -369,6 +392,213 @@ def oracle_overfit(p):
     return out
 
 
+# --------------------------------------------------------------------------------------------------
+# Exact-minimum oracle (kind xmin): THE minimiser and THE minimum of the record, as exact rationals from the Lean model
+# (driver commands arcovar / modcovar in Q mode: every double is a dyadic rational, so any float64 record is an exact-mode
+# input), against the energy reached by the returned coefficients, evaluated here in exact integer arithmetic.  Every
+# comparison is relative to the MINIMUM (plus the rounding floor of a backward-stable solver), not to |x|^2: a solution that
+# is optimal only up to a fraction of the minimum (truncated SVD, a dropped weak direction, a regularised solve) satisfies
+# "returned e = energy of returned a" and "residual orthogonal to the regressors relative to |X||x|" and is invisible to the
+# kinds above whenever the minimum is a tiny fraction of the signal energy.
+#
+# Tolerances = what the UNCHANGED tree achieves: two sweeps of the generators below (thorough tier, 30 seeds = 5200 records each), plus
+# 5500 records of an earlier sweep of families (a) and (c) and 19000 clustered-tone records for the frequency clause, over
+# sigma_min/sigma_max = rho from 1e-13 to 1; worst observed -> bound used (margin):
+#   lstsq functions   E(a) - e*          453 u      -> 3e4 u   (66x)    u = eps^2 |x|^2 (1 + |a*|_1)^2   (rounding floor)
+#   and the classes   |a - a*|_inf       4.7 v      -> 300 v   (63x)    v = eps/rho max(1, |a*|_inf)
+#                     |e - e*|           39.8 w     -> 3e3 w   (75x)    w = eps |x|^2 max(1, |a|_1)
+#   noiseless tones   frequency error    46 eps/rho and 8.8 eps/rho (1+|a*|_1) -> min(1500, 300 (1+|a*|_1)) eps/rho  (32x, 34x)
+#   Marple, rho>=1e-4 E(a_m) - e*        (453 + 41/rho^2) u -> (3e4 + 4000/rho^2) u   (97x; heavy tail: 12.9 in one sweep, 41 in the other)
+#                     |a_m - a*|_inf     9.4 eps/rho^2 max(1, |a*|_inf) -> 1000   (106x; 2.6 in one sweep, 9.4 in the other)
+#                     |P rows - e*|      36 w       -> 3e3 w   (83x)
+# (eps = 2^-52; rho = sigma_min/sigma_max of the regressor matrix of the function concerned, numpy SVD of a matrix built here;
+#  E(.) = energy evaluated exactly; a*, e* = exact minimiser / minimum.)  With a solver that drops the singular values below
+# 1.5e-8 sigma_max the first line is exceeded by many orders of magnitude (1e8 .. 1e15 u observed) on records with rho < 1.5e-8.
+EPS = 2.0 ** -52
+XMIN_RHO_MIN = 1e-13        # below: rank deficient to working precision, any minimiser is acceptable (kind overfit covers it)
+XMIN_MARPLE_RHO = 1e-4      # the fast recursions solve the normal equations: accurate while cond(XcH Xc) = rho^-2 <= 1e8
+
+
+def _ints(v):
+    """exact: complex doubles -> ([(re, im) as Python ints], k) with v = ints / 2^k"""
+    v = np.asarray(v).astype(complex).ravel()
+    rat = [(float(z.real).as_integer_ratio(), float(z.imag).as_integer_ratio()) for z in v]
+    k = max([d.bit_length() - 1 for pair in rat for (_, d) in pair] + [0])
+    return [((r[0] << k) // r[1], (i[0] << k) // i[1]) for r, i in rat], k
+
+
+def _exact_energy(x, a, modified):
+    """forward (+ backward when modified) prediction-error energy of the coefficient vector a on the record x: an exact
+    Fraction (integer arithmetic on the binary expansions of the doubles; no rounding anywhere)"""
+    from fractions import Fraction
+    X, kx = _ints(x)
+    A, ka = _ints(a)
+    N, p = len(X), len(A)
+    one = 1 << ka
+    s = 0
+    for t in range(p, N):
+        re, im = X[t][0] * one, X[t][1] * one
+        for j in range(p):
+            ar, ai = A[j]
+            xr, xi = X[t - j - 1]
+            re += ar * xr - ai * xi
+            im += ar * xi + ai * xr
+        s += re * re + im * im
+        if modified:
+            re, im = X[t - p][0] * one, X[t - p][1] * one
+            for j in range(p):
+                ar, ai = A[j]
+                xr, xi = X[t - p + j + 1]
+                re += ar * xr + ai * xi          # conj(a[j]) * x[t-p+j+1]
+                im += ar * xi - ai * xr
+            s += re * re + im * im
+    return Fraction(s, 1 << (2 * (kx + ka)))
+
+
+def _rho(x, order, modified):
+    """sigma_min / sigma_max of the regressor matrix (forward rows; forward + backward rows when modified), numpy SVD"""
+    X = _dmat(x, order)
+    M = X[:, 1:]
+    if modified:
+        M = np.vstack([M, np.conj(X[:, order - 1::-1])])
+    with np.errstate(all="ignore"):
+        sv = np.linalg.svd(M, compute_uv=False)
+    if not np.all(np.isfinite(sv)) or sv[0] == 0:
+        return 0.0
+    return float(sv[-1] / sv[0])
+
+
+def _exact_min(x, order):
+    """[(a*, e*) of arcovar, (a*, e*) of modcovar] from the Lean model in exact rational arithmetic (None: singular)"""
+    rep = proto.run_driver([proto.request(cmd, "Q", [order], [np.asarray(x)]) for cmd in ("arcovar", "modcovar")])
+    out = []
+    for r in rep:
+        st, val = proto.parse_reply(r, "Q")
+        out.append((proto.q2c(val[0]), val[1][0][0]) if st == "ok" else None)
+    return out
+
+
+def _freq_err(a, f):
+    """largest circular distance in the best one-to-one pairing of the expected frequencies with the root angles"""
+    from scipy.optimize import linear_sum_assignment
+    z = np.roots(np.concatenate(([1], c(a))))
+    if len(z) != len(f) or not np.all(np.isfinite(z)):
+        return float("inf"), z
+    fe = np.angle(z) / (2 * np.pi)
+    d = np.abs(fe[None, :] - np.asarray(f)[:, None])
+    d = np.minimum(d, 1 - d)
+    rows, cols = linear_sum_assignment(d)
+    return float(d[rows, cols].max()), z
+
+
+def xmin_measure(p):
+    """-> [(label, observed, bound, message)]: every comparison of the exact-minimum oracle with the value observed and the
+    bound it is held against (the oracle reports the entries with observed > bound; the sweep that fixed the bounds printed
+    max observed / bound per label)"""
+    sp = _sp()
+    xin = _present(p)
+    x = np.asarray(p["x"]).astype(complex)
+    N, order = len(x), p["order"]
+    en = float(np.sum(np.abs(x) ** 2))
+    cls = "complex" if np.iscomplexobj(p["x"]) else "real"
+    ref = _exact_min(p["x"], order)
+    out = []
+    for modified, name, mname, cname in ((False, "arcovar", "arcovar_marple", "pcovar"), (True, "modcovar", "modcovar_marple", "pmodcovar")):
+        rho = _rho(x, order, modified)
+        if not rho >= XMIN_RHO_MIN or ref[modified] is None:
+            continue                # not of full column rank to working precision: outside this oracle (tag xmin:rank-deficient)
+        astar, estar = ref[modified]
+        rows = (2 if modified else 1) * (N - order)
+        what = "minimum forward+backward energy" if modified else "minimum forward energy"
+        where = "(N=%d order=%d %s, family %s, sigma_min/sigma_max %.1e)" % (N, order, cls, p.get("fam", "-"), rho)
+        ainf = max(1.0, float(np.max(np.abs(astar)))) if order else 1.0
+        u = EPS ** 2 * en * (1.0 + float(np.sum(np.abs(astar)))) ** 2
+        a, e = getattr(sp, name)(xin, order)
+        a = c(a)
+        if len(a) != order or not np.all(np.isfinite(a)) or not np.isfinite(e):
+            out.append((name + ":finite", 1.0, 0.0, "%s returns %d coefficients / non-finite values for order %d %s" % (name, len(a), order, where)))
+            continue
+        w = EPS * en * max(1.0, float(np.sum(np.abs(a))))
+        E = _exact_energy(x, a, modified)
+        if E < estar:
+            out.append(("harness", 1.0, 0.0, "harness: exact energy of the returned coefficients is below the model's minimum %s" % where))
+            continue
+        ex = float(E - estar)
+        ratio = float(E / estar) if estar else float("inf")
+        out.append((name + ":energy", ex, 3e4 * u,
+                    "%s coefficients are not the minimiser: their energy exceeds the exact %s by %.3e = %.3g x the rounding floor "
+                    "(energy / minimum = %.6g, minimum / signal energy = %.1e) %s" % (name, what, ex, ex / u if u else np.inf, ratio, float(estar) / en, where)))
+        da = float(np.max(np.abs(a - astar))) if order else 0.0
+        out.append((name + ":coef", da, 300 * EPS / rho * ainf,
+                    "%s coefficients differ from the exact minimiser by %.2e (max-norm; conditioning allows %.1e) %s" % (
+                        name, da, 300 * EPS / rho * ainf, where)))
+        out.append((name + ":e", abs(e - float(estar)), 3e3 * w,
+                    "%s returned error %r is not the exact %s %r (difference %.2e of the signal energy) %s" % (
+                        name, e, what, float(estar), abs(e - float(estar)) / en, where)))
+        if p.get("freqs") is not None:
+            f = np.asarray(p["freqs"], dtype=float)
+            fe, z = _freq_err(a, f)
+            ftol = min(1500.0, 300.0 * (1.0 + float(np.sum(np.abs(astar))))) * EPS / rho
+            out.append((name + ":freq", fe, ftol,
+                        "%s does not recover the %d frequencies of a noiseless sum of exponentials: error %.2e (conditioning allows %.1e), "
+                        "estimates %s vs %s %s" % (name, order, fe, ftol, np.sort(np.angle(z) / (2 * np.pi)), np.sort(f), where)))
+        # the classes: same coefficients, variance = minimum per row
+        q = getattr(sp, cname)(xin, order)
+        q()
+        ar = c(q.ar)
+        if len(ar) != order or not np.all(np.isfinite(ar)):
+            out.append((cname + ":finite", 1.0, 0.0, "%s(...).ar has %d entries / non-finite values for order %d %s" % (cname, len(ar), order, where)))
+        else:
+            exq = float(_exact_energy(x, ar, modified) - estar)
+            out.append((cname + ":energy", exq, 3e4 * u,
+                        "%s(...).ar is not the minimiser: its energy exceeds the exact %s by %.3e = %.3g x the rounding floor %s" % (
+                            cname, what, exq, exq / u if u else np.inf, where)))
+            out.append((cname + ":rho", abs(float(q.rho) * rows - float(estar)), 3e3 * w,
+                        "%s(...).rho x rows = %r is not the exact %s %r %s" % (cname, float(q.rho) * rows, what, float(estar), where)))
+        # the fast recursions, where the normal equations they solve are accurate: printed predicate, tag xmin:marple-*
+        if rho >= XMIN_MARPLE_RHO:
+            try:
+                am = getattr(sp, mname)(xin, order)
+            except ValueError as exn:
+                out.append((mname + ":raises", 1.0, 0.0, "%s raises ValueError (%s) on a record with cond(XcH Xc) = %.1e %s" % (
+                    mname, str(exn)[:60], rho ** -2, where)))
+                continue
+            ak = c(am[0])[:order]
+            exm = float(_exact_energy(x, ak, modified) - estar)
+            out.append((mname + ":energy", exm, (3e4 + 4000 / rho ** 2) * u,
+                        "%s coefficients are not the minimiser: their energy exceeds the exact %s by %.3e = %.3g x the rounding floor "
+                        "(allowed %.3g) %s" % (mname, what, exm, exm / u if u else np.inf, 3e4 + 4000 / rho ** 2, where)))
+            dm = float(np.max(np.abs(ak - astar))) if order else 0.0
+            out.append((mname + ":coef", dm, 1000 * EPS / rho ** 2 * ainf,
+                        "%s coefficients differ from the exact minimiser by %.2e (conditioning allows %.1e) %s" % (
+                            mname, dm, 1000 * EPS / rho ** 2 * ainf, where)))
+            out.append((mname + ":P", abs(float(np.real(am[1])) * rows - float(estar)), 3e3 * w,
+                        "%s error x rows = %r is not the exact %s %r (difference %.2e of the signal energy) %s" % (
+                            mname, float(np.real(am[1])) * rows, what, float(estar), abs(float(np.real(am[1])) * rows - float(estar)) / en, where)))
+    return out
+
+
+def oracle_xmin(p):
+    return [msg for _, obs, bound, msg in xmin_measure(p) if not obs <= bound]
+
+
+def _xmin_tags(p):
+    x = np.asarray(p["x"])
+    t = ["complex" if np.iscomplexobj(x) else "real", "xmin:" + p.get("fam", "-")]
+    for modified, nm in ((False, "cov"), (True, "mod")):
+        rho = _rho(x.astype(complex), p["order"], modified)
+        if not rho >= XMIN_RHO_MIN:
+            t.append("xmin:%s:rank-deficient(excluded)" % nm)
+            continue
+        t.append("xmin:%s:rho=1e%+03d" % (nm, int(np.floor(np.log10(rho)))))
+        if rho < 1e-8:
+            t.append("xmin:%s:rho<1e-8" % nm)
+        t.append("xmin:%s:marple-%s" % (nm, "checked" if rho >= XMIN_MARPLE_RHO else "excluded(cond>1e8)"))
+    if len(x) == 2 * p["order"]:
+        t.append("N=2p")
+    return t
+
+
 def _key(p):
     x = np.asarray(p["x"])
     return "%s|%d|%d|%s|%d" % (p.get("fn"), len(x), p["order"], np.iscomplexobj(x), hash(x.tobytes()) & 0xFFFFFF)
@@ -388,7 +618,7 @@ def _tags(p):
 # kinds whose parameters describe the content of x: no derived degenerate records
 # (lawsdyn: records of wide dynamic range pass the conditioning predicate as generated; a derived record - real part only,
 # ends zeroed, a dominant constant added - is a different record that generally does not)
-NO_DEGEN = {"overfit", "recover", "lawsdyn"}
+NO_DEGEN = {"overfit", "recover", "lawsdyn", "xmin"}
 
 KINDS = {
     "fit": {"impl": impl_fit, "model": model_fit, "rtol": 1e-6, "atol": 1e-9, "key": _key, "tags": _tags,
@@ -414,6 +644,8 @@ KINDS = {
     "overfit": {"oracle": oracle_overfit, "key": _key, "tags": lambda p: ["overfit:K=%d,p=%d" % (p["K"], p["order"])]},
     "recover": {"oracle": oracle_recover, "key": _key,
                 "tags": lambda p: ["recover:%d" % p["order"], "recover:" + p.get("fam", "cexp")]},
+    # exact minimum (Lean model, rationals) vs exact energy of the returned coefficients, every conditioning down to 1e-13
+    "xmin": {"oracle": oracle_xmin, "key": _key, "tags": _xmin_tags, "nontrivial": lambda p: p["order"] >= 2},
     "sanity": {"oracle": oracle_sanity, "key": lambda p: "sanity", "nontrivial": lambda p: False,
                "tags": lambda p: ["sanity:%s=%d/%d" % (k, v[0], v[1]) for k, v in sorted(p["counts"].items())]},
 }
@@ -425,6 +657,126 @@ KINDS["single"] = single.kind("C14")
 def _cexp(f, N):
     t = np.arange(N)
     return sum((1 + j) * np.exp(2j * np.pi * fj * t + 1j * j) for j, fj in enumerate(f))
+
+
+# ---- generators of the exact-minimum kind -----------------------------------------------------------------------------
+def _xmin_base(nrng, N, cplx):
+    """an exact low-order recurrence with integer (Gaussian-integer) samples: (samples, number of components, name)"""
+    n = np.arange(N)
+    w = int(nrng.integers(0, 7))
+    c1, c2 = float(nrng.integers(1, 6)), float(nrng.integers(1, 6))
+    if w == 3 and N <= 12:
+        r = [2.0, -2.0][int(nrng.integers(0, 2))]
+        b, K, nm = c1 * r ** n, 1, "pow2"                       # integer-valued exponential c (+-2)^n
+    elif w == 6 and N <= 16:
+        b = np.zeros(N)
+        b[0], b[1] = c1, c2
+        for t in range(2, N):
+            b[t] = b[t - 1] + b[t - 2]                          # Fibonacci-like: two real exponentials
+        K, nm = 2, "fib"
+    elif w == 4:
+        pat = nrng.integers(-4, 5, 3).astype(float)
+        pat[0] += float(not np.any(pat != pat[0]))
+        b, K, nm = pat[n % 3], 3, "period3"
+    elif w == 5:
+        pat = nrng.integers(-4, 5, 4).astype(float)
+        pat[0] += float(not np.any(pat != pat[0]))
+        b, K, nm = pat[n % 4], 4, "period4"
+    elif w == 0:
+        b, K, nm = c1 * np.ones(N), 1, "const"
+    elif w == 1:
+        b, K, nm = c1 * (-1.0) ** n, 1, "alt"
+    else:
+        b, K, nm = c1 + c2 * (-1.0) ** n, 2, "const+alt"
+    if cplx:
+        if nrng.integers(0, 2):
+            b = b * np.array([[1, 1j, -1, -1j][t % 4] for t in n])      # times i^n: as many components, all complex
+            nm += "*i^n"
+        else:
+            b = b * (1 + 1j)
+    return b, K, nm
+
+
+def _xmin_illrec(nrng, i):
+    """(a) exactly representable record = exact recurrence of K components + 2^-s x small integers, order > K: the regressor
+    matrix has K singular values of order 1 and order-K of relative size ~2^-s (s stratified over 0..40: 1 .. 1e-12)"""
+    cplx = bool(nrng.integers(0, 2))
+    N = int(nrng.integers(8, 25))
+    b, K, nm = _xmin_base(nrng, N, cplx)
+    pmax = min(N // 2, 6)
+    if K + 1 > pmax:
+        return None
+    s = 4 * (i % 10) + int(nrng.integers(1, 5))
+    # keep the sum exactly representable (53 bits): |b| < 2^B, perturbation < 2^(4-s)
+    s = min(s, 48 - int(np.ceil(np.log2(np.max(np.abs(b)) + 1))))
+    d = nrng.integers(-8, 9, N).astype(float)
+    if cplx:
+        d = d + 1j * nrng.integers(-8, 9, N)
+    x = b + d * 2.0 ** -s
+    return {"x": np.asarray(x, dtype=complex if cplx else float), "order": int(nrng.integers(K + 1, pmax + 1)),
+            "fam": "rec:" + nm.split("*")[0], "K": K, "shift": s}
+
+
+def _xmin_weak(nrng, i, big):
+    """(c) exponentials / real sinusoids in white noise at SNR 0..200 dB (stratified), order larger than the number of
+    exponentials: sigma_min/sigma_max ~ noise/signal"""
+    cplx = bool(nrng.integers(0, 2))
+    N = int(nrng.integers(40, 97)) if big else int(nrng.integers(8, 41))
+    snr = 20.0 * (i % 10) + float(nrng.uniform(0, 20))
+    sig = 10 ** (-snr / 20)
+    t = np.arange(N)
+    if cplx:
+        K = int(nrng.integers(1, 4))
+        f = np.sort(nrng.choice(np.arange(-19, 20), size=K, replace=False) / 40.0) + nrng.uniform(-0.01, 0.01, K)
+        amp = nrng.uniform(0.5, 2, K) * np.exp(1j * nrng.uniform(0, 6.28, K))
+        x = sum(a * np.exp(2j * np.pi * fj * t) for fj, a in zip(f, amp)) + sig * (nrng.standard_normal(N) + 1j * nrng.standard_normal(N))
+    else:
+        Ks = int(nrng.integers(1, 3))
+        f = nrng.choice(np.arange(2, 19), size=Ks, replace=False) / 40.0 + nrng.uniform(-0.01, 0.01, Ks)
+        x = sum(nrng.uniform(0.5, 2) * np.cos(2 * np.pi * fj * t + nrng.uniform(0, 6.28)) for fj in f) + sig * nrng.standard_normal(N)
+        K = 2 * Ks
+    pmax = min(N // 2, 14 if big else 8)
+    if K + 1 > pmax:
+        return None
+    return {"x": x, "order": int(nrng.integers(K + 1, pmax + 1)), "fam": "weaknoise-big" if big else "weaknoise", "K": K, "snr_db": snr}
+
+
+def _xmin_cluster(nrng, i):
+    """(b) noiseless sum of p exponentials with clustered, distinct frequencies (spacing 1e-3 .. 1e-2 cycles/sample), fitted at
+    order p; real flavour: one or two real sinusoids within 1e-3 .. 1e-2 of DC or of Nyquist (roots +-f: a cluster of 2 or 4)"""
+    sp = 10 ** float(nrng.uniform(-3, -2))
+    if i % 3 == 2:
+        Ks = 1 + (i // 3) % 2
+        f1 = sp * float(nrng.uniform(0.5, 1.5))
+        fr = f1 + np.concatenate(([0.0], np.cumsum(sp * nrng.uniform(0.8, 1.25, Ks - 1))))
+        if (i // 6) % 2:
+            fr = 0.5 - fr
+        N = int(nrng.integers(4 * Ks + 2, 129))
+        t = np.arange(N)
+        x = sum(nrng.uniform(0.5, 2) * np.cos(2 * np.pi * fj * t + nrng.uniform(0.3, 2.8)) for fj in fr)
+        return {"x": x, "order": 2 * Ks, "freqs": np.sort(np.concatenate((-fr, fr))), "fam": "cluster-real", "spacing": sp}
+    p = 2 + (i // 3) % 4
+    f = float(nrng.uniform(-0.45, 0.4)) + np.concatenate(([0.0], np.cumsum(sp * nrng.uniform(0.8, 1.25, p - 1))))
+    N = int(nrng.integers(2 * p, 129))
+    t = np.arange(N)
+    amp = nrng.uniform(0.5, 2, p) * np.exp(1j * nrng.uniform(0, 6.28, p))
+    x = sum(a * np.exp(2j * np.pi * fj * t) for fj, a in zip(f, amp))
+    return {"x": x, "order": p, "freqs": f, "fam": "cluster", "spacing": sp}
+
+
+def gen_xmin(nrng, tier, counts):
+    quick = tier == "quick"
+    fams = ((_xmin_illrec, 20 if quick else 30), (lambda r, i: _xmin_weak(r, i, False), 20 if quick else 30),
+            (lambda r, i: _xmin_weak(r, 3 * i + 4, True), 3 if quick else 4), (_xmin_cluster, 18 if quick else 24))
+    for g, n in fams:
+        for i in range(n):
+            q = g(nrng, i)
+            if q is None:
+                continue
+            c0 = counts.setdefault("xmin-" + q["fam"].split(":")[0], [0, 0])
+            c0[0] += int(_rho(np.asarray(q["x"]).astype(complex), q["order"], False) >= XMIN_RHO_MIN)
+            c0[1] += 1
+            yield ("xmin", q)
 
 
 def gen(rng, nrng, tier):
@@ -564,4 +916,6 @@ def gen(rng, nrng, tier):
         x = 1.0 + 2 * (-1.0) ** np.arange(N)
         for xx in (x, x.astype(complex)):
             yield ("recover", {"x": xx, "order": 2, "freqs": np.array([-0.5, 0.0]), "fam": "dc+nyquist"})
+    # exact-minimum kind: ill-conditioned full-rank records (own random stream: the cases above keep their values)
+    yield from gen_xmin(np.random.default_rng(int(nrng.integers(0, 2 ** 31))), tier, counts)
     yield ("sanity", {"counts": {k: tuple(v) for k, v in counts.items()}})
